@@ -245,15 +245,151 @@ def check_links(ctx, rng):
         st.close()
 
 
+def check_save_during_pass(ctx, rng):
+    """the user keeps working while a hashing pass over the workspace (a status: build(dry_run=True); a staging: build())
+    runs to completion: a file is saved right after the pass has read it, or before the pass reaches it, in place or by an
+    atomic replacement.  Some time later another version is checked out without force.  Whatever the pass left in the state
+    database, the checkout must not take the saved file for a cached one.  The interleaving is forced from here by wrapping
+    `hash_file` as the build module sees it; every explicit timestamp of the history is distinct (one tick per event)."""
+    from dvc_data.hashfile import build as build_mod
+    from dvc_data.hashfile.build import build
+
+    sc = Scene(ctx, rng, with_state=True)
+    try:
+        prior = gen.rand_tree(rng, max_files=5, allow_odd=False)
+        t1 = sc.put_tree(prior)
+        existing = rng.choice(LINKS)
+        link = existing if rng.random() < 0.7 else rng.choice(LINKS)
+        sc.checkout(t1, [existing], force=True)
+        target = dict(prior)
+        for k in list(prior):
+            r = rng.random()
+            if r < 0.4:
+                target[k] = prior[k] + b"#v2"
+            elif r < 0.55 and len(target) > 1:
+                del target[k]
+        if target == prior:
+            k = rng.choice(sorted(prior))
+            target[k] = prior[k] + b"#v2"
+        if rng.random() < 0.3:
+            target[("added",)] = b"brand new"
+        t2 = sc.put_tree(target)
+        t0 = os.stat(sc.ws).st_mtime_ns
+        tick = [0]
+
+        def stamp(p):
+            tick[0] += 1
+            st = os.stat(p)
+            os.utime(p, ns=(st.st_atime_ns, t0 + tick[0] * 1_000_000_000))
+
+        def plain(p):
+            return not os.path.islink(p) and os.stat(p).st_nlink == 1
+
+        files = sorted(sc.bytes_snapshot())
+        # before the pass: some files were touched, or copied anew with the same bytes (unprotect, cp) - the pass has to hash them
+        rehash = []
+        for rel in files:
+            p = os.path.join(sc.ws, rel)
+            r = rng.random()
+            if r < 0.45 and plain(p):
+                stamp(p)
+                rehash.append(["touch", rel])
+            elif r < 0.85:
+                with open(p, "rb") as f:
+                    data = f.read()
+                os.remove(p)
+                with open(p, "wb") as f:
+                    f.write(data)
+                stamp(p)
+                rehash.append(["copy_anew", rel])
+        saves = []
+        hashed = []
+
+        def user_save(rel, when):
+            p = os.path.join(sc.ws, rel)
+            cached = rng.random() < 0.12
+            content = rng.choice(sorted(sc.contents.values())) if cached else b"user-save-%d-" % rng.randrange(10**6) + rel.encode()
+            if plain(p) and rng.random() < 0.6:
+                mode = "in_place"
+                with open(p, "wb") as f:
+                    f.write(content)
+            else:
+                mode = "replace"
+                with open(p + ".user-tmp", "wb") as f:
+                    f.write(content)
+                os.replace(p + ".user-tmp", p)
+            stamp(p)
+            saves.append([when, mode, rel, "cached_content" if cached else "uncached_content"])
+
+        real_hash_file = build_mod.hash_file
+
+        def hash_file_then_user(path, *a, **kw):
+            ret = real_hash_file(path, *a, **kw)
+            rel = os.path.relpath(path, sc.ws)
+            if rel in files:
+                hashed.append(rel)
+                r = rng.random()
+                if r < 0.45:
+                    user_save(rel, "after_it_was_read")
+                elif r < 0.6:
+                    other = rng.choice(files)
+                    user_save(other, "after_it_was_read" if other in hashed else "before_the_pass_reached_it")
+            return ret
+
+        pass_kind = rng.choice(["status", "stage"])
+        build_mod.hash_file = hash_file_then_user
+        try:
+            k0, r0 = safe_call(lambda: build(sc.odb, sc.ws, sc.fs, "md5", dry_run=(pass_kind == "status"))[2].hash_info.value)
+        finally:
+            build_mod.hash_file = real_hash_file
+        second = rng.random() < 0.3
+        if second:
+            # an undisturbed status afterwards
+            safe_call(lambda: build(sc.odb, sc.ws, sc.fs, "md5", dry_run=True))
+        relink = rng.random() < (0.6 if existing != link else 0.3)
+        prompt = rng.choice([None, "decline"])
+        before_bytes = sc.bytes_snapshot()
+        recoverable = {rel: (b is not None and sc.intact_in_cache(b)) for rel, b in before_bytes.items()}
+        kw = {"force": False, "relink": relink}
+        if prompt == "decline":
+            kw["prompt"] = lambda msg: False
+        res = sc.checkout(t2, [link], **kw)
+        after_bytes = sc.bytes_snapshot()
+        case = {"save_during_hashing_pass": {"prior": {"/".join(k): v.decode("latin1") for k, v in prior.items()},
+                                             "target": {"/".join(k): v.decode("latin1") for k, v in target.items()},
+                                             "existing": existing, "link": link, "relink": relink, "prompt": prompt,
+                                             "needs_rehash": rehash, "pass": pass_kind, "pass_outcome": k0 if k0 == "ok" else r0,
+                                             "hashed_by_the_pass": list(hashed), "user_saves_during_the_pass": saves,
+                                             "second_status": second, "local": sc.local}}
+        after_read = [s for s in saves if s[0] == "after_it_was_read"]
+        ctx.case(case, nontrivial=any(not recoverable[r] for r in before_bytes))
+        ctx.count("save_during_pass: pass=%s saves_after_read=%s saves_before_read=%s" % (pass_kind, bool(after_read), len(saves) > len(after_read)))
+        ctx.count("save_during_pass outcome:" + ("ok" if "ok" in res else res["err"]))
+        for rel, b in before_bytes.items():
+            if after_bytes.get(rel) != b:
+                ctx.oracle(recoverable[rel], case, {"why": "checkout without force removed or overwrote a file that the user saved while an earlier hashing pass was running; its content is not in the cache",
+                                                     "path": rel, "outcome": res, "before_md5": md5hex(b or b"")})
+        unrecoverable_in_the_way = [rel for rel, b in before_bytes.items()
+                                    if not recoverable[rel] and tuple(rel.split(os.sep)) in prior
+                                    and target.get(tuple(rel.split(os.sep))) != b]
+        if unrecoverable_in_the_way:
+            ctx.oracle(res.get("err") == "PromptError", case,
+                       {"why": "a tracked path holds content that is not in the cache and differs from the target, yet checkout without force did not refuse with PromptError",
+                        "paths": unrecoverable_in_the_way, "outcome": res})
+    finally:
+        sc.close()
+
+
 def run(ctx):
     ctx.rule = (
         "workspace checked out from one directory object (copy/hardlink/symlink, both store classes, with/without state), then user "
         "edits (replace by uncached content, replace by cached content, delete, add an untracked file), optionally the old version "
         "leaving the cache, then a checkout of another object without force, relink on/off, prompt absent or declining, some target "
-        "objects missing, the workspace checked out with another link type than the configured one, objects of unchanged files gone from the cache; removal of an output (checkout of no object) with file objects gone from the cache while the directory object stays; workspaces hashed earlier under the text-normalising md5 through a shared state while the md5 cache holds only the LF twins of their CRLF files; link histories record/modify/replace/remove/clean-up with in-use lists and non-normalised root spellings. "
+        "objects missing, the workspace checked out with another link type than the configured one, objects of unchanged files gone from the cache; removal of an output (checkout of no object) with file objects gone from the cache while the directory object stays; workspaces hashed earlier under the text-normalising md5 through a shared state while the md5 cache holds only the LF twins of their CRLF files; link histories record/modify/replace/remove/clean-up with in-use lists and non-normalised root spellings; a real State and a hashing pass over the workspace (status or staging) during which the user saves files - right after the pass has read them or before it reaches them, in place or by replacement, every timestamp distinct - followed later by a checkout of another version without force (refusal and untouched bytes checked). "
         "non-trivial = the workspace holds at least one file whose content is not in the cache"
     )
-    ctx.assumptions = ["the hash-state cache is coherent (C13): a stale cached hash of a user file would make in_cache lie"]
+    ctx.assumptions = ["the hash-state cache is coherent (C13): a stale cached hash of a user file would make in_cache lie "
+                       "(explored here only for saves that land during a completed hashing pass of build())"]
     for _ in range(ctx.n(130, 1500)):
         check_noforce(ctx, ctx.rng)
     for _ in range(ctx.n(120, 1200)):
@@ -262,6 +398,8 @@ def run(ctx):
         check_remove_output(ctx, ctx.rng)
     for _ in range(ctx.n(25, 250)):
         check_legacy_twin(ctx, ctx.rng)
+    for _ in range(ctx.n(40, 400)):
+        check_save_during_pass(ctx, ctx.rng)
 
 
 def search(ctx):
@@ -273,6 +411,8 @@ def search(ctx):
         check_remove_output(ctx, ctx.rng)
     for _ in range(250):
         check_legacy_twin(ctx, ctx.rng)
+    for _ in range(400):
+        check_save_during_pass(ctx, ctx.rng)
 
 
 def replay(ctx, payload):
